@@ -380,7 +380,7 @@ def show(o):
         if isinstance(x, tuple):
             return [s(i) for i in x]
         if isinstance(x, np.ndarray):
-            return [repr(float(v)) if v.dtype != bool else bool(v) for v in np.atleast_1d(x)]
+            return [bool(v) if x.dtype == bool else (repr(float(v)) if x.dtype != object else repr(v)) for v in np.atleast_1d(x).ravel()]
         if isinstance(x, Fraction):
             return str(x)
         return x if isinstance(x, (str, bool, int, type(None))) else repr(x)
